@@ -26,6 +26,11 @@ func prfFill(key uint64, off int64, dst []byte) {
 		o := uint64(off) + uint64(i)
 		w := mix64(key + (o>>3)*0x9e3779b97f4a7c15)
 		b := byte(w >> ((o & 7) * 8))
+		if o < 8 {
+			// the first bytes stay pseudo-random in every style: they identify the stream
+			dst[i] = b
+			continue
+		}
 		switch style {
 		case 1:
 			if (o>>6)&1 == 0 {
@@ -106,6 +111,7 @@ type Peer struct {
 	OpenedAt  time.Duration
 	FirstRxAt time.Duration
 	noVerify  bool
+	scriptSet bool
 }
 
 func NewPeer(r *Run, name, role string, conn net.Conn, txKey uint64, cands []Candidate) *Peer {
@@ -360,7 +366,7 @@ func (t *Target) acceptLoop() {
 		if t.Cands != nil {
 			cands = t.Cands()
 		}
-		p := NewPeer(t.r, fmt.Sprintf("%s#%d", t.Name, j), "target", c, prfKey(t.r.Seed, "tgt", t.Index, j), cands)
+		p := NewPeer(t.r, fmt.Sprintf("%s#%d", t.Name, j), "target", c, TargetKey(t.r.Seed, t.Index, j), cands)
 		if t.Plan != nil {
 			p.Script = t.Plan(j)
 		}
@@ -377,6 +383,39 @@ func (t *Target) Peers() []*Peer {
 	return append([]*Peer(nil), t.Conns...)
 }
 
+// Stream keys are salted so that, within a run, no two application streams
+// (and no two streams of one target) start with the same byte: a receiver can
+// then tell from the very first byte whose stream it is reading.
+func firstByte(key uint64) byte {
+	var b [1]byte
+	prfFill(key, 0, b[:])
+	return b[0]
+}
+
+func uniqueKey(seed uint64, kind string, a, i int) uint64 {
+	var prev []byte
+	for x := 0; x <= i; x++ {
+		for salt := 0; ; salt++ {
+			k := prfKey(seed, kind, a*1000+x, salt)
+			fb := firstByte(k)
+			clash := false
+			for _, p := range prev {
+				if p == fb {
+					clash = true
+				}
+			}
+			if !clash {
+				if x == i {
+					return k
+				}
+				prev = append(prev, fb)
+				break
+			}
+		}
+	}
+	panic("unreachable")
+}
+
 // TargetKey is the key the j-th connection accepted by target index writes with.
-func TargetKey(seed uint64, index, j int) uint64 { return prfKey(seed, "tgt", index, j) }
-func AppKey(seed uint64, i int) uint64           { return prfKey(seed, "app", i, 0) }
+func TargetKey(seed uint64, index, j int) uint64 { return uniqueKey(seed, "tgt", index, j) }
+func AppKey(seed uint64, i int) uint64           { return uniqueKey(seed, "app", 0, i) }
